@@ -177,15 +177,22 @@ class BaseSession(SessionInterface, Generic[MessageT]):
             raise MailboxReadOnly(name)
         dest_selected = self._pick_selected(selected, mbx)
         uids: list[int] = []
-        for append_msg in messages:
-            if Recent in append_msg.flag_set:
-                # \\Recent is a session flag, it can never be stored
-                append_msg = replace(
-                    append_msg, flag_set=append_msg.flag_set - {Recent})
-            msg = await mbx.append(append_msg, recent=not dest_selected)
-            if dest_selected:
-                dest_selected.session_flags.add_recent(msg.uid)
-            uids.append(msg.uid)
+        try:
+            for append_msg in messages:
+                if Recent in append_msg.flag_set:
+                    # \\Recent is a session flag, it can never be stored
+                    append_msg = replace(
+                        append_msg, flag_set=append_msg.flag_set - {Recent})
+                msg = await mbx.append(append_msg, recent=not dest_selected)
+                uids.append(msg.uid)
+                if dest_selected:
+                    dest_selected.session_flags.add_recent(msg.uid)
+        except BaseException:
+            # MULTIAPPEND is atomic: if it does not complete, e.g. because
+            # the connection task was cancelled, none of its messages stay
+            if uids and len(messages) > 1:
+                await shield(mbx.delete(uids))
+            raise
         return (AppendUid(mbx.uid_validity, uids),
                 await self._load_updates(selected, mbx))
 
